@@ -40,12 +40,13 @@ static void exec(vh::Rng & r, vh::Out & out)
       out.put(vh::Ev("weights").b("ones", ones));
     }
     if (r.coin(1, 2)) {
-      for (int k = 0; k < est; ++k) {A[k] = r.pick(IV{1, 2, -1, 4, 3, -2}); B[k] = r.range(-5, 5);}
+      const bool noOffset = r.coin(1, 3);                  // then the one-argument overload is used: it must clear an earlier offset
+      for (int k = 0; k < est; ++k) {A[k] = r.pick(IV{1, 2, -1, 4, 3, -2}); B[k] = noOffset ? 0 : r.range(-5, 5);}
       typename LeastSquares<R>::Matrix Ac = LeastSquares<R>::Matrix::Zero(est, est);
       typename LeastSquares<R>::Vector Bc(est);
       for (int k = 0; k < est; ++k) {Ac(k, k) = (R)A[k]; Bc(k) = (R)B[k];}
       bool allZeroB = true; for (auto v : B) {allZeroB = allZeroB && v == 0;}
-      if (allZeroB && r.coin()) {ls->setPreconditionner(Ac);} else {ls->setPreconditionner(Ac, Bc);}
+      if (allZeroB && (noOffset || r.coin())) {ls->setPreconditionner(Ac);} else {ls->setPreconditionner(Ac, Bc);}
       out.put(vh::Ev("precond").vec("a", A).vec("b", B));
     }
     // the problem
@@ -53,6 +54,9 @@ static void exec(vh::Rng & r, vh::Out & out)
     std::vector<IV> rows(n, IV(est, 0));
     IV y(n, 0), w(n, 1);
     bool weighted = r.coin(1, 3);
+    // the whole problem (J and Y) scaled by a power of two: the minimiser is unchanged, the arithmetic stays exact
+    const double pscale = r.coin(1, 4) ? (sizeof(R) == 8 ? r.pick(std::vector<double>{std::ldexp(1.0, -23), std::ldexp(1.0, -12), 1024.0}) :
+      r.pick(std::vector<double>{std::ldexp(1.0, -12), 64.0})) : 1.0;
     for (int i = 0; i < n; ++i) {
       if (i < est) {rows[i][i] = r.range(1, 3);} else if (i % 2 == 1 && i > est && r.coin()) {rows[i] = rows[i - 1];}      // duplicated row
       else {for (auto & v : rows[i]) {v = r.range(-3, 3);}}
@@ -69,8 +73,8 @@ static void exec(vh::Rng & r, vh::Out & out)
     std::vector<int> order(n); for (int i = 0; i < n; ++i) {order[i] = i;}
     for (int i = n - 1; i > 0; --i) {std::swap(order[i], order[(size_t)r.range(0, i)]);}
     for (int i : order) {
-      for (int k = 0; k < est; ++k) {ls->getJ()(i, k) = (R)rows[i][k];}
-      ls->getY()(i) = (R)y[i];
+      for (int k = 0; k < est; ++k) {ls->getJ()(i, k) = (R)(rows[i][k] * pscale);}
+      ls->getY()(i) = (R)(y[i] * pscale);
       out.put(vh::Ev("fill").i("i", i + 1).vec("j", rows[i]).i("y", y[i]));
       if (weighted || w[i] != 1 || r.coin(1, 10)) {
         ls->getW()(i) = (R)w[i];
@@ -89,7 +93,7 @@ static void exec(vh::Rng & r, vh::Out & out)
         xi.push_back(std::isfinite(rv) && std::fabs(rv) < 1e9 ? (long long)rv : 0);
       }
       out.put(vh::Ev("estimate").str("how", how).vec("x", xi).b("exact", ok));
-      if (est <= 2 && n <= 60) {
+      if (est <= 2 && n <= 60 && pscale == 1.0) {
         long long var = r.pick(IV{1, 2, 4});
         auto C = ls->computeEstimateCovariance((R)var);
         // J^T J of the rows as the solver now holds them (weights applied once after weightedEstimate)
